@@ -4,8 +4,8 @@ import atexit, hashlib, json, os, shutil, subprocess, sys, time
 VERIF = os.path.dirname(os.path.dirname(os.path.abspath(__file__)))
 REPO = os.environ.get("VERIF_REPO", "/repo")
 CACHE = os.path.join(VERIF, ".cache")
-EVIDENCE_DIR = os.path.join(VERIF, "evidence")
-REPLAY_DIR = os.path.join(VERIF, "replays")
+EVIDENCE_DIR = os.environ.get("VERIF_EVIDENCE_DIR") or os.path.join(VERIF, "evidence")
+REPLAY_DIR = os.environ.get("VERIF_REPLAY_DIR") or os.path.join(VERIF, "replays")
 KNOWN_FINDINGS = os.path.join(VERIF, "known_findings.json")
 
 EXIT_OK, EXIT_VIOLATION, EXIT_NOREPRO, EXIT_INCONCLUSIVE = 0, 1, 2, 3
@@ -27,6 +27,10 @@ def scratch():
 def env_offline():
     e = dict(os.environ)
     e["CARGO_NET_OFFLINE"] = "true"
+    # the cfg-guarded verification hook of /repo (MANIFEST.hooks): on for native builds of the harness crate
+    # (cargo kani sets --cfg kani itself and overrides RUSTFLAGS)
+    if "ais_verif" not in e.get("RUSTFLAGS", ""):
+        e["RUSTFLAGS"] = (e.get("RUSTFLAGS", "") + " --cfg ais_verif").strip()
     e.setdefault("GOPROXY", "off")
     e.setdefault("PIP_NO_INDEX", "1")
     return e
